@@ -7,7 +7,7 @@ from gffutils.exceptions import FeatureNotFoundError
 from gv.model import dbutil
 
 ID = "C04"
-RULE = ("id_spec form (13) x featuretype pattern x per line one of {ID only, Name only, both, neither, two ID values} for 3 (quick) / 4 "
+RULE = ("id_spec form (13) x featuretype pattern x per line one of {ID only, Name only, both, neither, two ID values, empty ID=} for 3 (quick) / 4 "
         "(thorough) lines, GFF3 plus a GTF part with the default spec; non-trivial = some line lacks the first listed attribute, or "
         "autoincrement is used, or an id attribute is multi-valued")
 ASSUMPTIONS = [
@@ -16,7 +16,7 @@ ASSUMPTIONS = [
     "on rejection only the raised exception is observed (the partially written database is not inspected)",
 ]
 
-LINEKINDS = ("id", "name", "both", "neither", "two_ids")
+LINEKINDS = ("id", "name", "both", "neither", "two_ids", "empty_id")
 PATTERNS = (("gene", "gene", "gene", "gene"), ("gene", "mRNA", "gene", "mRNA"), ("exon", "exon", "gene", "exon"),
             ("mRNA", "gene", "exon", "gene"))
 
@@ -89,7 +89,7 @@ def ref_ids(spec, feats):
             elif len(k) > 3 and k[0] == ":" and k[-1] == ":":
                 got = cols[k[1:-1]]
                 break
-            elif k in attrs:
+            elif k in attrs and attrs[k]:          # present = carries a value
                 if len(attrs[k]) > 1:
                     raise Rejected(k)
                 got = attrs[k][0]
@@ -113,23 +113,26 @@ def body_gff3(ch, ctx):
             attrs["ID"] = ["i%d" % i]
         if kind == "two_ids":
             attrs["ID"] = ["i%d" % i, "j%d" % i]
+        if kind == "empty_id":
+            attrs["ID"] = []            # "ID=" : the attribute is written but carries no value
+            attrs["Name"] = ["n%d" % i]
         if kind in ("name", "both"):
             attrs["Name"] = ["n%d" % i]
         attrs["tag"] = ["t%d" % i]
         cols = dict(seqid="c%d" % i, source="s%d" % i, start=10 * i + 1, end=10 * i + 5, strand="+-.+"[i])
         ft = pattern[i]
         feats.append((ft, cols, attrs))
-        order = [k for k in ("ID", "Name", "tag") if k in attrs]
-        if sname == "list_rev":
-            order = [k for k in ("Name", "ID", "tag") if k in attrs]
+        order = [k for k in ("Name", "ID", "tag") if k in attrs] if (sname == "list_rev" or kind == "empty_id") else \
+                [k for k in ("ID", "Name", "tag") if k in attrs]
         texts.append("\t".join([cols["seqid"], cols["source"], ft, str(cols["start"]), str(cols["end"]), ".", cols["strand"], ".",
                                 ";".join("%s=%s" % (k, ",".join(attrs[k])) for k in order)]))
+        feats[-1] = (ft, cols, {k: v for k, v in attrs.items()})
     try:
         exp = ref_ids("ID" if spec is None else spec, feats)
     except Rejected:
         exp = None
     ctx.sample(lambda: dict(id_spec=sname, lines=texts, expected_ids=exp))
-    ctx.nontrivial(exp is None or any(k in ("neither", "name") for k in kinds) or callable(spec))
+    ctx.nontrivial(exp is None or any(k in ("neither", "name", "empty_id") for k in kinds) or callable(spec))
     ctx.outcome((sname, exp is None, tuple(k for k in kinds)))
     sig = dict(spec=sname)
     wd = ctx.fresh_dir()
@@ -152,9 +155,15 @@ def body_gff3(ch, ctx):
         return
     ctx.check(len(set(ids)) == len(ids), "keys-not-unique", sig, ids=ids)
     for key, text, f in zip(exp, texts, feats_db):
+        text = text.replace(";ID=;", ";ID;")      # an empty 'ID=' is printed as a valueless flag (print round trip is C07's business)
         g = db[key]
         ctx.check(g.id == key and str(g) == text and str(db[f]) == text, "lookup-returns-other-feature", sig,
                   key=key, line=text, got=str(g))
+        # what a look-up returns is the caller's own copy: editing it does not change later look-ups
+        g.start = 999
+        g.attributes["edited"] = ["1"]
+        h = db[key]
+        ctx.check(str(h) == text and h is not g, "lookup-reflects-edits-of-an-earlier-result", sig, key=key, line=text, got=str(h))
     idset = set(exp)
     for key in exp:
         for miss in (key + "_1", key.swapcase(), key[:-1], key + " ", "nope"):
